@@ -178,8 +178,8 @@ def decode(rows, off):
             ex = sorted(kids("exon", attr1(t, "ID")), key=blk)
             cd = sorted(kids("CDS", attr1(t, "ID")), key=blk)
             txs.append(dict(info=info(t), strand=t["strand"], span=blk(t),
-                            exons=[(blk(r), info(r)) for r in ex],
-                            cds=[(blk(r), FRAME_OF_PHASE.get(r["phase"]), info(r)) for r in cd]))
+                            exons=[(blk(r), r["strand"], info(r)) for r in ex],
+                            cds=[(blk(r), r["strand"], FRAME_OF_PHASE.get(r["phase"]), info(r)) for r in cd]))
         genes.append(dict(info=info(g), strand=g["strand"], span=blk(g), txs=txs))
     fcs = []
     for c in rows:
@@ -188,7 +188,7 @@ def decode(rows, off):
         feats = []
         for f in kids("feature_interval", attr1(c, "ID")):
             sub = sorted(kids("subregion", attr1(f, "ID")), key=blk)
-            feats.append(dict(info=info(f), strand=f["strand"], span=blk(f), regions=[(blk(r), info(r)) for r in sub]))
+            feats.append(dict(info=info(f), strand=f["strand"], span=blk(f), regions=[(blk(r), r["strand"], info(r)) for r in sub]))
         fcs.append(dict(info=info(c), strand=c["strand"], span=blk(c), feats=feats))
     return dict(genes=genes, fcs=fcs)
 
@@ -252,9 +252,10 @@ def expected(coll):
             cds = []
             if t["cds_starts"]:
                 ci = dict(name=name_reads(t["protein_id"]), attrs=expect_attrs(cds_quals(g, t)))
-                cds = [((s, e), f, ci) for s, e, f in zip(t["cds_starts"], t["cds_ends"], t["cds_frames"])]
+                cds = [((s, e), G_SYM[t["strand"]], f, ci)
+                       for s, e, f in zip(t["cds_starts"], t["cds_ends"], t["cds_frames"])]
             txs.append(dict(info=ti, strand=G_SYM[t["strand"]], span=(ex[0][0], ex[-1][1]),
-                            exons=[(b, ti) for b in ex], cds=cds))
+                            exons=[(b, G_SYM[t["strand"]], ti) for b in ex], cds=cds))
         genes.append(dict(info=dict(name=name_reads(g["gene_symbol"]), attrs=expect_attrs(gene_quals(g))), strand="+",
                           span=(min(t["exon_starts"][0] for t in g["transcripts"]),
                                 max(t["exon_ends"][-1] for t in g["transcripts"])), txs=txs))
@@ -275,7 +276,7 @@ def expected(coll):
             fi = dict(name=name_reads(f["feature_name"]), attrs=expect_attrs(fq))
             bl = list(zip(f["interval_starts"], f["interval_ends"]))
             feats.append(dict(info=fi, strand=G_SYM[f["strand"]], span=(bl[0][0], bl[-1][1]),
-                              regions=[(b, fi) for b in bl]))
+                              regions=[(b, G_SYM[f["strand"]], fi) for b in bl]))
         fcs.append(dict(info=dict(name=name_reads(c["feature_collection_name"]), attrs=expect_attrs(cq)), strand="+",
                         span=(min(f["interval_starts"][0] for f in c["feature_intervals"]),
                               max(f["interval_ends"][-1] for f in c["feature_intervals"])), feats=feats))
